@@ -130,7 +130,10 @@ where
 
 /-! ### Well-formedness of a spelling -/
 
-def SAttr.Well (a : SAttr) : Prop := WellSpelled a.pieces ∧ a.name.text ≠ ['x', 'm', 'l', 'n', 's']
+/-- (`pstart = 0`: the absent prefix is xmlparser's `"".into()`, offset 0; an empty prefix at another
+    offset is a colon with nothing in front of it, refused since /repo a5fafb0.) -/
+def SAttr.Well (a : SAttr) : Prop :=
+  WellSpelled a.pieces ∧ a.name.text ≠ ['x', 'm', 'l', 'n', 's'] ∧ a.pstart = 0
 
 def SPart.Well : SPart → Prop
   | .txt ps _ => ps ≠ [] ∧ WellSpelled ps
@@ -150,11 +153,14 @@ def attrsWell (attrs : List SAttr) : Prop :=
 
 /-- A spelling is well formed: attribute values and text parts are well spelled, attribute names
     are pairwise different and none is `xmlns`, the end tag repeats the start tag's name, no two
-    character-data runs are neighbours, no processing-instruction target is `xml` (any letter case). -/
+    character-data runs are neighbours, no processing-instruction target is `xml` (any letter case),
+    the absent prefixes have offset 0 (as the tokenizer reports them; `check_qname` of /repo a5fafb0
+    takes an empty prefix at another offset for a colon with nothing in front). -/
 def SNode.Well : SNode → Prop
-  | .elem name _ _ attrs _ kids cname _ _ =>
-    attrsWell attrs ∧ cname.text = name.text ∧ noAdjChars kids = true ∧ wellList kids
-  | .empty _ _ _ attrs _ => attrsWell attrs
+  | .elem name pstart _ attrs _ kids cname cpstart _ =>
+    attrsWell attrs ∧ cname.text = name.text ∧ noAdjChars kids = true ∧ wellList kids ∧
+      pstart = 0 ∧ cpstart = 0
+  | .empty _ pstart _ attrs _ => attrsWell attrs ∧ pstart = 0
   | .chars parts => ∀ p ∈ parts, p.Well
   | .comment _ _ => True
   -- the target `xml` (any letter case) is reserved
